@@ -56,9 +56,10 @@ class Sym(Tok):
     """abstract float that is an exact polynomial over named input atoms (rational coefficients): closed under + - * and division
     by a non-zero number; cos / sin / radians of a Sym are fresh atoms named after their argument.  Decides small algebraic maps
     (an affine transform of a control point) exactly, for every value of the atoms."""
-    __slots__ = ('p', 'q')
+    __slots__ = ('p', 'q', 'iv')
 
-    def __init__(self, p, q=None):
+    def __init__(self, p, q=None, iv=None):
+        self.iv = iv            # for a parameter atom: the open interval (lo, hi) of numbers it ranges over (order comparisons with numbers outside it are decided)
         from .poly import Poly
         if isinstance(p, str):
             p = Poly.atom(p)
@@ -182,6 +183,22 @@ def order_compare(l, r, op):
         return ops[type(op)](l.val, r)
     if isinstance(r, Tok) and r.kind == 'PH0' and r.val is not None and isinstance(l, (int, float)) and not isinstance(l, bool):
         return ops[type(op)](l, r.val)
+    # a symbolic parameter that ranges over an open interval, against a number outside that interval
+    from fractions import Fraction as _F
+    if isinstance(l, Sym) and l.iv is not None and isinstance(r, (int, float, _F)) and not isinstance(r, bool) and type(op) in (ast.Lt, ast.LtE, ast.Gt, ast.GtE):
+        lo, hi = l.iv
+        if r >= hi:
+            return type(op) in (ast.Lt, ast.LtE)
+        if r <= lo:
+            return type(op) in (ast.Gt, ast.GtE)
+        return None
+    if isinstance(r, Sym) and r.iv is not None and isinstance(l, (int, float, _F)) and not isinstance(l, bool) and type(op) in (ast.Lt, ast.LtE, ast.Gt, ast.GtE):
+        lo, hi = r.iv
+        if l >= hi:
+            return type(op) in (ast.Gt, ast.GtE)
+        if l <= lo:
+            return type(op) in (ast.Lt, ast.LtE)
+        return None
     # gap vs a (small, positive) tolerance or zero: a non-zero gap exceeds it
     def gapval(g):
         return g.sign * 10 ** 9
@@ -598,8 +615,8 @@ class SK(object):
                 if (isinstance(l, Sym) or isinstance(r, Sym)) and isinstance(op, (ast.Eq, ast.NotEq)):
                     # symbolic atoms stand for generic reals: two polynomials are equal only if they are identical
                     from .poly import Poly as _P
-                    pl = l if isinstance(l, Sym) else (Sym(_P.const(l)) if isinstance(l, (int, float)) and not isinstance(l, bool) else None)
-                    pr = r if isinstance(r, Sym) else (Sym(_P.const(r)) if isinstance(r, (int, float)) and not isinstance(r, bool) else None)
+                    pl = l if isinstance(l, Sym) else (Sym(_P.const(l)) if isinstance(l, (int, float, Fraction)) and not isinstance(l, bool) else None)
+                    pr = r if isinstance(r, Sym) else (Sym(_P.const(r)) if isinstance(r, (int, float, Fraction)) and not isinstance(r, bool) else None)
                     if pl is not None and pr is not None:
                         same = pl.same(pr)
                         res = same if isinstance(op, ast.Eq) else not same
